@@ -253,6 +253,22 @@ class SizedMut(SizedList):
         if not (-self.n <= i < self.n):
             raise IndexError("list assignment index out of range")
 
+    def pop(self, i=-1):
+        if not (-self.n <= i < self.n):
+            raise IndexError("pop index out of range")
+        self.n = self.n - 1
+        return 0
+
+    def __delitem__(self, i):
+        if not (-self.n <= i < self.n):
+            raise IndexError("list assignment index out of range")
+        self.n = self.n - 1
+
+    def remove(self, v):
+        if self.n <= 0:
+            raise ValueError("list.remove(x): x not in list")
+        self.n = self.n - 1
+
     def __getitem__(self, i):
         if isinstance(i, slice):
             return SizedMut(0)
@@ -281,6 +297,33 @@ def mut_sized(n: int, i: int, v: int) -> None:
         assert len(arr) == n, "full list changed by a failing operation"
     else:
         assert len(arr) <= n + 1 and len(arr) <= CAP, "list grew by more than one element / beyond the cap"
+    hlib.done()
+
+
+def sized_any(n: int, i: int, rel: bool, extra: int, indexed: bool) -> None:
+    """
+    pre: 9996 <= n <= 10001 and 0 <= extra <= 4 and -1 <= i <= 1
+    post: True
+    """
+    # ANY entry of the function table, called with a list whose length is near the cap first and 0..5 further arguments
+    # (rarely used / surplus argument forms included): whatever it does, a list below the cap does not end above it
+    # and a full list does not grow
+    hlib.enter(locals())
+    name = hlib.PARAM["fn"]
+    extra, i, v = hlib.concrete(extra, 0, 4), hlib.concrete(i, -1, 1), 1
+    hlib.assume(indexed or (i == 0 and not rel))
+    arr = [0] * n if _replaying() else SizedMut(n)
+    if rel:
+        i = n + i          # positions around the end of the list
+    args = ([i] if indexed else []) + [v] * extra
+    try:
+        FUNCTIONS[name](arr, *args)
+    except Exception:
+        pass
+    if n >= CAP:
+        assert len(arr) <= n, "%s(list, %d further arguments) made a full list longer" % (name, len(args))
+    else:
+        assert len(arr) <= CAP, "%s(list, %d further arguments) grew a list beyond the cap" % (name, len(args))
     hlib.done()
 
 
